@@ -42,12 +42,13 @@ package main
 //@ global pos ghost:Int
 //@ global scanErr ghost:I.error
 
-// Helpers of main that C18 does not depend on beyond these facts (contracts assumed, bodies not verified here):
-// getBinaryArch returns one of the three Info values; their tables are injective (C12, ground-verified).
+// getBinaryArch (verified) returns one of three Info values; that their tables are injective (no name with two
+// numbers) is a fact about the table literals: ground obligations arch.syscalls*#ground.injective of this check; main
+// uses it as an explicit, listed assumption at the call. The other helpers (hash, output, templates) are assumed to
+// have no effect on what C18 speaks about; their bodies are not verified.
 //@ macro tableInjective(ai) = forallk(a_, ai.SyscallNumbers, forallk(b_, ai.SyscallNumbers, has(ai.SyscallNumbers, a_) && has(ai.SyscallNumbers, b_) && ai.SyscallNumbers[a_] == ai.SyscallNumbers[b_] ==> a_ == b_))
-//@ func getBinaryArch(binary string) (*arch.Info, string, error)
-//@   trusted
-//@   ensures result2 == nil ==> result0 != nil && tableInjective(result0) && (result0 == arch.I386 || result0 == arch.ARM || result0 == arch.X86_64)
+//@ func getBinaryArch(binary string) (*arch.Info, string, error)   properties C18
+//@   ensures @one_of_three {C18} result2 == nil ==> result0 != nil && (result0 == arch.I386 || result0 == arch.ARM || result0 == arch.X86_64)
 //@ func hashBinary(binary string) (string, error)
 //@   trusted
 //@ func openOutput(goarch string) (io.WriteCloser, error)
@@ -110,6 +111,7 @@ package main
 //@   requires ghost.pos == 0 && ghost.nlines >= 0
 //@   requires forallk(h, "String", CI(ghost.disk, h))
 //@   modifies ghost.pos, ghost.disk, ghost.tmp, ghost.buf, ghost.wfile, ghost.written, ghost.ran
+//@   ghost assume tableInjective(archInfo) at after assign archInfo#1
 //@   hint @table {C18} forall(j, 0, len(syscalls), has(tbl(), syscalls[j].Num) && tbl()[syscalls[j].Num] == syscalls[j].Name) at before loop 1
 //@   hint @mtable {C18} forallk(n, m, has(m, n) ==> has(tbl(), n) && m[n].Name == tbl()[n] && foundName(syscalls, m[n].Name)) at after loop 1
 //@   hint @mall {C18} forall(j, 0, len(syscalls), has(m, syscalls[j].Num) && m[syscalls[j].Num].Name == syscalls[j].Name) at after loop 1
